@@ -57,6 +57,9 @@ func (c *decoratorController) callHook(
 		}
 	} else {
 		// Sync
+		if !c.syncHook.IsEnabled() {
+			return nil, fmt.Errorf("sync hook not defined")
+		}
 		if err := c.syncHook.Call(requestBuilder.Build(), &response); err != nil {
 			return nil, fmt.Errorf("sync hook failed: %w", err)
 		}
